@@ -74,11 +74,21 @@ fn main() {
             let count: usize = args[4].parse().unwrap();
             mutants::run(&args[2], seed, count, &args[5]).print();
         }
+        "replay" => {
+            // cfbh replay <outfile> <trace>...
+            mutants::replay(&args[3..].to_vec(), &args[2]).print();
+        }
         "layouts" => {
             // cfbh layouts <seed> <count> <outfile>
             let seed: u64 = args[2].parse().unwrap();
             let count: usize = args[3].parse().unwrap();
             synth::run(seed, count, &args[4]).print();
+        }
+        "difat" => {
+            // cfbh difat <seed> <count> <outfile>
+            let seed: u64 = args[2].parse().unwrap();
+            let count: usize = args[3].parse().unwrap();
+            synth::difat_run(seed, count, &args[4]).print();
         }
         "deviations" => {
             let seed: u64 = args[2].parse().unwrap();
